@@ -96,13 +96,13 @@ Proof.
     + apply (IH Hnd' r Hin).
 Qed.
 
-Lemma cands_In c i b :
-  In (i, b) (cands c) <->
+Lemma log_cands_In c i b :
+  In (i, b) (log_cands c) <->
   exists t k r lat, In (t, i, k) (c_calls c) /\ (t < cutoff (c_strat c))%Z
                     /\ find_relay i (c_relays c) = Some r
                     /\ nth_error (r_script r) (N.to_nat k) = Some (lat, RBid b) /\ eligible r b = true.
 Proof.
-  unfold cands. rewrite in_flat_map. split.
+  unfold log_cands. rewrite in_flat_map. split.
   - intros [[[t i'] k] [Hc Hin]].
     destruct (t <? cutoff (c_strat c))%Z eqn:Et; [|destruct Hin].
     destruct (find_relay i' (c_relays c)) as [r|] eqn:Ef; [|destruct Hin].
@@ -124,11 +124,33 @@ Proof.
   unfold calls_before_obs. rewrite filter_In. rewrite Z.ltb_lt. reflexivity.
 Qed.
 
+(* the candidates read off the input alone (first call of a relay that must be asked) are
+   acceptable offers, whatever the log says *)
+Lemma first_cands_acceptable c i b :
+  In (i, b) (first_cands c) -> acceptable (c_strat c) (c_relays c) i b.
+Proof.
+  unfold first_cands. rewrite in_flat_map. intros [r [Hr Hin]].
+  destruct (r_kind r) eqn:Ek; try (destruct Hin; fail).
+  destruct (r_script r) as [|[lat x] rest] eqn:Es; [destruct Hin|].
+  destruct x; try (destruct Hin; fail).
+  destruct ((r_grace r + lat <? cutoff (c_strat c))%Z && eligible r b0) eqn:E; [|destruct Hin].
+  destruct Hin as [Heq | []]. injection Heq as <- <-.
+  apply andb_true_iff in E as [Ht He]. apply Z.ltb_lt in Ht.
+  exists (r_grace r + lat)%Z, r, 0. repeat split; try assumption.
+  - unfold queried. rewrite Ek. destruct (c_strat c); reflexivity.
+  - destruct (c_strat c) as [T | D gap]; cbn [answered].
+    + unfold best_calls. rewrite Es. left. reflexivity.
+    + rewrite Es. cbn [deadline_calls]. cbn [cutoff] in Ht. apply Z.ltb_lt in Ht. rewrite Ht. left. reflexivity.
+Qed.
+
 Lemma cands_iff_acceptable c :
   NoDup (map r_idx (c_relays c)) -> log_agrees c ->
   forall i b, In (i, b) (cands c) <-> acceptable (c_strat c) (c_relays c) i b.
 Proof.
-  intros Hnd Hlog i b. rewrite cands_In. split.
+  intros Hnd Hlog i b. unfold cands. rewrite in_app_iff.
+  assert (Hfirst := first_cands_acceptable c i b).
+  cut (In (i, b) (log_cands c) <-> acceptable (c_strat c) (c_relays c) i b); [tauto|].
+  clear Hfirst. rewrite log_cands_In. split.
   - intros (t & k & r & lat & Hc & Ht & Hf & Hn & He).
     apply find_relay_some in Hf as [Hr Hi].
     assert (Hcb : In (t, i, k) (calls_before (c_strat c) (c_relays c))).
